@@ -1,4 +1,5 @@
 import DendroModel.Model.C16
+import DendroModel.Model.C16Ext
 open DendroModel DendroModel.C16
 
 /-! protocol
@@ -6,7 +7,11 @@ open DendroModel DendroModel.C16
                                 `S <obj> <alphabet> <gaps_as_missing 0/1> <weights: - (None), . (empty list) or w,w,…> <taxonbit> =<symbols> …`
    → one result per op joined by ` | `: `ok <score> <by,by,…>`, `KeyError`, `ValueError`, `IndexError`, `c`
 `sets <alphabet> <0/1> =<symbols>`  → the state-set masks of one row
-`reroot <steps: - or LL,LR,…> <tree>` → rendered tree -/
+`reroot <steps: - or LL,LR,…> <tree>` → rendered tree
+`xhist <xop> | <xop> …`  the extended alphabet (several trees, attribute stores per attribute name, map objects, up pass, dumps):
+   `N <tree>` | `C obj` | `M`/`E` as above | `T k <src>` (map object) | `S obj <store: - (None) or n> <weights> <src>`
+   | `U obj <store n> <map: - or k>` | `D obj <store n>`;   `<src>` = `lit <alphabet> <0/1> rows…` | `mat k <0/1>` | `map k`
+   → per op: `n`, `c`, `m`, `ok …`, an exception name, `u`, or the dump `row;row;…` (row = `x` no attribute, `e` empty, masks `a,b,…`) -/
 
 def splitBar (ws : List String) : List (List String) :=
   let rec go : List String → List String → List (List String)
@@ -123,6 +128,68 @@ def showRes : MRes → String
   | .matOk => "m"
   | .badMat => "bad-mat"
 
+def parseSrc : List String → Option Src
+  | "lit" :: alph :: g :: rows =>
+    match parseFlag g with
+    | some g =>
+      match parseRows alph g rows with
+      | some m => if m.isEmpty || !(m.all (fun r => r.2.length == nchar m)) then none else some (.lit m)
+      | none => none
+    | none => none
+  | ["mat", k, g] =>
+    match k.toNat?, parseFlag g with
+    | some k, some g => some (.mat k g)
+    | _, _ => none
+  | ["map", k] => k.toNat?.map Src.map
+  | _ => none
+
+def parseStore (s : String) : Option (Option Nat) := if s == "-" then some none else s.toNat?.map some
+
+def parseXOp : List String → Option XOp
+  | "N" :: toks =>
+    match parseTree toks with
+    | some (t, []) => some (.newTree t)
+    | _ => none
+  | ["C", j] => j.toNat?.map XOp.clone
+  | "T" :: k :: src =>
+    match k.toNat?, parseSrc src with
+    | some k, some src => some (.defMap k src)
+    | _, _ => none
+  | "S" :: j :: store :: w :: src =>
+    match j.toNat?, parseStore store, parseWeights w, parseSrc src with
+    | some j, some store, some w, some src => some (.score j src store w)
+    | _, _, _, _ => none
+  | ["U", j, store, mk] =>
+    match j.toNat?, store.toNat?, parseStore mk with
+    | some j, some store, some mk => some (.up j store mk)
+    | _, _, _ => none
+  | ["D", j, store] =>
+    match j.toNat?, store.toNat? with
+    | some j, some store => some (.dump j store)
+    | _, _ => none
+  | ws =>
+    match parseOp ws with
+    | some (.defMat k mo) => some (.defMat k mo)
+    | some (.editCell k b i c) => some (.editCell k b i c)
+    | some (.editSeq k b cs) => some (.editSeq k b cs)
+    | _ => none
+
+def showRow : Option Row → String
+  | none => "x"
+  | some [] => "e"
+  | some r => ",".intercalate (r.map toString)
+
+def showXRes : XRes → String
+  | .ok s bc => s!"ok {s} " ++ (if bc.isEmpty then "-" else ",".intercalate (bc.map toString))
+  | .err e => e.name
+  | .cloned => "c"
+  | .created => "n"
+  | .badObj => "bad-obj"
+  | .matOk => "m"
+  | .badMat => "bad-mat"
+  | .upOk => "u"
+  | .sets rows => if rows.isEmpty then "-" else ";".intercalate (rows.map showRow)
+
 def parseStep (s : String) : Option Step :=
   match s with
   | "LL" => some .LL | "LR" => some .LR | "RL" => some .RL | "RR" => some .RR
@@ -137,6 +204,10 @@ def handle (ws : List String) : String :=
       | some (t, []), some ops => " | ".intercalate ((runMHist t [[]] [] ops).map showRes)
       | _, _ => "bad-op"
     | [] => "bad-op"
+  | "xhist" :: rest =>
+    match (splitBar rest).mapM parseXOp with
+    | some ops => " | ".intercalate ((runXHist { objs := [], mats := [], maps := [] } ops).map showXRes)
+    | none => "bad-op"
   | ["sets", alph, g, syms] =>
     match parseFlag g, parseSyms syms with
     | some g, some cs =>
